@@ -44,6 +44,7 @@ NEG_CONTROLS = {"devS21": "S21", "devS22": "S22", "devS23": "S23", "devS23b": "S
 ACTIONS = ["ALock", "AArtifacts", "ALogOpen", "APreHook", "ADbOpen", "ASetup", "AMain", "ATeardown", "AMap",
            "ADbClose", "AMetaWrite", "ALogClose", "APostHook", "AUnlock", "AExit"]
 OBS_KEYS = ("exit", "escaped", "meta", "log", "lockFree", "db", "pre", "post", "phases", "reported")
+PREHOOK_BASE = 9_000_000
 CLI_BASE = 100000
 EXIT_GRACE_S = 30
 NPAR = max(2, min(12, (os.cpu_count() or 4) - 4))
@@ -303,6 +304,17 @@ def select_cases(cases: list[dict[str, Any]], tier: str, seed: int) -> tuple[lis
         cli = full + sorted(rnd.sample(rest, min(10, len(rest)))) + sorted(rnd.sample(some_other, min(10, len(some_other))))
     a = [{"id": i, "c": cases[i]["c"], "expect": cases[i]["expect"]} for i in inproc]
     b = [{"id": CLI_BASE + i, "c": cases[i]["c"], "expect": cases[i]["expect"]} for i in cli]
+    # Ctrl-C while the pre-hook runs (outside the design layer's case space: judged by the contract only; the
+    # database is left out because the interrupt is then delivered inside the database open, where the
+    # statement is silent about the run record)
+    k = 0
+    for kind in ("Script", "Scanner", "UDSScanner"):
+        for art, lock in (((True, True), (True, False), (False, True)) if tier == "thorough" or kind == "Script"
+                          else ((True, True),)):
+            b.append({"id": PREHOOK_BASE + k, "expect": None,
+                      "c": {"kind": kind, "art": art, "db": False, "lock": lock, "hooks": True, "point": "PreHook",
+                            "how": "CtrlC", "n": 0, "where": "pre"}})
+            k += 1
     # how the database fails to open: the directory cannot be created / the file is not a database / the file
     # was written by another schema version (the last two fail AFTER the sqlite connection object exists)
     for cs in a + b:
